@@ -90,7 +90,8 @@ func setNodeKey(ctx context.Context, key string) context.Context {
 	if !existed || len(path.path) == 0 {
 		return context.WithValue(ctx, nodePathKey{}, NewNodePath(key))
 	}
-	return context.WithValue(ctx, nodePathKey{}, NewNodePath(append(path.path, key)...))
+	// the parent's path is shared by all sibling nodes: do not append into the spare capacity of that slice
+	return context.WithValue(ctx, nodePathKey{}, NewNodePath(append(path.path[:len(path.path):len(path.path)], key)...))
 }
 
 func getStateModifier(ctx context.Context) StateModifier {
